@@ -29,6 +29,11 @@ theorem propInfo_spec {env : Env} {s : Schema} {n : Str} {i : Nat} {og : Option 
     · cases h
   · cases h
 
+theorem propInfo_of {env : Env} {s : Schema} {n : Str} {i : Nat} {p : Property} {k : FieldKind}
+    (hf : findProp n 0 s.props = some (i, p)) (hk : classify env s.name p = .ok k) :
+    propInfo env s n = some (i, p.oneofGroup, k) := by
+  unfold propInfo; rw [hf]; dsimp only; rw [hk]
+
 theorem propInfo_hasProperty {env : Env} {s : Schema} {n : Str} {i : Nat} {og : Option (Str × List Nat)}
     {k : FieldKind} (h : propInfo env s n = some (i, og, k)) : s.hasProperty n = true := by
   obtain ⟨p, hf, _⟩ := propInfo_spec h
@@ -131,6 +136,11 @@ theorem newContainerElement_exact (f : Addr) (s : Schema) (xs : List Node) :
 
 /-- the node `storeScalar` leaves -/
 def storeNode (presence : Bool) (v : Scalar) : Node := if presence || !v.isZero then .scalar v else .absent
+
+theorem storeNode_str (s : Str) : storeNode false (.str s) = sStr s := by
+  cases s <;> rfl
+
+theorem storeNode_true : storeNode false (.bool true) = bTrue := rfl
 
 theorem storeScalar_exact (f : Addr) (presence : Bool) (v : Scalar) (X : Node) :
     Exact (storeScalar f presence v) f X () (storeNode presence v) := by
